@@ -214,7 +214,15 @@ Crash ==
   /\ act' = [name |-> "Crash"]
   /\ UNCHANGED <<truth, height, leaf, rec, leg, decl, applied, snap, preH>>
 
+(* new node objects on the same database (graceful or not): nothing the state is kept in lives
+   outside the database, so a restart changes nothing *)
+Restart(graceful) ==
+  /\ phase \in {"pre", "post"} /\ height > 0
+  /\ act' = [name |-> "Restart", graceful |-> graceful]
+  /\ UNCHANGED <<truth, height, leaf, rec, leg, decl, phase, done, applied, crashes, snap, preH>>
+
 Next ==
+  \/ \E g \in BOOLEAN : Restart(g)
   \/ \E d \in Diffs, ver \in Vers : Block(d, ver)
   \/ \E z \in BOOLEAN : Downgrade(z)
   \/ Begin \/ Crash \/ SetApplied
@@ -224,6 +232,7 @@ Next ==
 Spec == Init /\ [][Next]_vars
 
 --------------------------------------------------------------------------------
+RestartIsNoOp == [][act'.name = "Restart" => UNCHANGED <<truth, height, leaf, rec, leg, decl, phase, applied>>]_vars
 TypeOK == phase \in {"pre", "old", "mig", "post"} /\ height \in 0..(MaxPre + MaxPost)
 
 (* the contracts trie commits to the abstract state: (P1) right after the migration, (P3) after
